@@ -43,6 +43,8 @@ void build_alphabet() {
   { Stmt s = mk(S_ASSERT); s.c = cst({{1, VX}}, -1, C_LEQ); add(s, "assert(x<=1)"); }
   { Stmt s = mk(S_ASSERT); s.c = cst({{-1, VY}}, -1, C_LEQ); add(s, "assert(y>=-1)"); }
   { Stmt s = mk(O_ARITH_VV); s.a = 0; s.v0 = VX; s.v1 = VX; s.v2 = VZ; add(s, "x:=x+z"); }
+  // a select whose third operand is the only place where z is read
+  { Stmt s = mk(O_SELECT); s.v0 = VX; s.c = cst({{1, VY}}, 0, C_LEQ); s.e = lin({}, 0); s.e2 = lin({{1, VZ}}); add(s, "x:=ite(y<=0,0,z)"); }
   if (th) {
     { Stmt s = mk(O_ASSIGN); s.v0 = VY; s.e = lin({}, 1); add(s, "y:=1"); }
     { Stmt s = mk(S_UNREACH); add(s, "unreachable"); }
